@@ -87,7 +87,10 @@ def _solve_steps(steps, sysd, scale, tol, prec, cap, storage, jitter, R, tagx=No
     return call
 
 
-def gen_trace(seed, world, tier, mode=None):
+SWEEP_CHUNKS = 4
+
+
+def gen_trace(seed, world, tier, mode=None, chunk=None):
     R = sub_rng(seed, "C04")
     nmax = 6 if tier == "quick" else 10
     if mode is None:
@@ -123,6 +126,8 @@ def gen_trace(seed, world, tier, mode=None):
                 "tags": {"scale": 0, "prec": prec, "cap": None, "storage": storage,
                          "family": sysd["family"], "bkind": sysd["bkind"]}}
         sw = {"k": "sweep", "cls": "solver.QGMRESSolver", "cfg": cfg, "call": call}
+        if mode == "sweep" and chunk is not None:
+            sw["frac"] = [chunk / SWEEP_CHUNKS, (chunk + 1) / SWEEP_CHUNKS]
         if mode == "strided":
             sw.update({"picks": 40 if tier == "quick" else 80, "focus": SWEEP_FOCUS,
                        "pick_seed": R.randrange(10 ** 6)})
@@ -137,14 +142,15 @@ def gen_jobs(base_seed, tier, budget=None):
     n_runs = budget or (480 if tier == "quick" else 12000)
     n_sweeps = 6 if tier == "quick" else 60
     jobs = []
+    for i in range(n_sweeps):   # the long jobs first, so that they overlap with the rest
+        seed = base_seed * 10 ** 6 + 900000 + i
+        w = worlds[i % len(worlds)]
+        for ch in range(SWEEP_CHUNKS):   # one system, its crash points split over 4 jobs
+            jobs.append({"seed": seed, "trace": gen_trace(seed, w, tier, mode="sweep", chunk=ch)})
     for i in range(n_runs):
         seed = base_seed * 10 ** 6 + i
         w = worlds[i % len(worlds)]
         jobs.append({"seed": seed, "trace": gen_trace(seed, w, tier)})
-    for i in range(n_sweeps):
-        seed = base_seed * 10 ** 6 + 900000 + i
-        w = worlds[i % len(worlds)]
-        jobs.append({"seed": seed, "trace": gen_trace(seed, w, tier, mode="sweep")})
     return jobs, worlds
 
 
